@@ -810,6 +810,76 @@ func c20Export(doc *document.Document, o c20Opts) (md string, fail string) {
 	return md, ""
 }
 
+var c20Decoys = map[string]*document.Document{}
+
+// c20Decoy builds a small document that uses every element kind and ends with a list item / a table.
+func c20Decoy(kind string) *document.Document {
+	if d, ok := c20Decoys[kind]; ok {
+		return d
+	}
+	d := document.New()
+	d.AddHeadingParagraph("Decoy heading", 1)
+	p := d.AddParagraph("decoy *text* with [brackets] ")
+	p.AddFormattedText("bold", &document.TextFormat{Bold: true})
+	q := d.AddParagraph("decoy quote")
+	q.SetStyle("Quote")
+	c := d.AddParagraph("decoy code")
+	c.SetStyle("CodeBlock")
+	if kind == "table" {
+		d.AddBulletList("decoy item", 0, document.BulletTypeDot)
+		t, err := d.AddTable(&document.TableConfig{Rows: 2, Cols: 2, Width: 9000})
+		if err == nil {
+			t.SetCellText(0, 0, "dh1")
+			t.SetCellText(0, 1, "dh2")
+			t.SetCellText(1, 0, "d|c1")
+			t.SetCellText(1, 1, "dc2")
+		}
+	} else {
+		t, err := d.AddTable(&document.TableConfig{Rows: 1, Cols: 2, Width: 9000})
+		if err == nil {
+			t.SetCellText(0, 0, "dh1")
+			t.SetCellText(0, 1, "dh2")
+		}
+		d.AddBulletList("decoy item one", 0, document.BulletTypeDot)
+		d.AddBulletList("decoy item two", 0, document.BulletTypeDot)
+	}
+	c20Decoys[kind] = d
+	return d
+}
+
+// c20ReusedExport exports decoy, doc, doc with ONE exporter object and compares the two exports of doc with
+// the export a fresh exporter gives.  how = "" when all agree.
+func c20ReusedExport(doc *document.Document, o c20Opts, decoy string) (got string, how string) {
+	fresh, fail := c20Export(doc, o)
+	if fail != "" {
+		return "", ""
+	}
+	opts := o.export()
+	if o.nonDefault() == 0 {
+		opts = nil
+	}
+	var a, b string
+	var e0, e1, e2 error
+	if p := guard(func() {
+		ex := markdown.NewExporter(nil)
+		_, e0 = ex.ExportToString(c20Decoy(decoy), opts)
+		a, e1 = ex.ExportToString(doc, opts)
+		b, e2 = ex.ExportToString(doc, opts)
+	}); p != "" {
+		return p, "panic|" + panicClass(p)
+	}
+	if e0 != nil || e1 != nil || e2 != nil {
+		return fmt.Sprint(e0, e1, e2), "error"
+	}
+	if a != fresh {
+		return a, "first-export-after-decoy"
+	}
+	if b != fresh {
+		return b, "second-export-of-the-document"
+	}
+	return "", ""
+}
+
 func c20FileEntries(doc *document.Document, add func(sig, clause, what string, exp, got interface{})) {
 	dir, err := os.MkdirTemp("", "vcheck-c20-")
 	if err != nil {
@@ -900,6 +970,16 @@ func c20RunCase(els []c20Elem, o c20Opts) c20Result {
 	res.Steps += 2
 	if again, f2 := c20Export(doc, o); f2 != "" || again != md1 {
 		add("unstable|same-document", "fixpoint", "two exports of the same document object differ", md1, again)
+	}
+	// (1a) an exporter object that is used for several documents (the way BatchExport and any caller that keeps
+	// its exporter do): after a decoy document that ends inside a list / inside a table, and for a second export
+	// of the same document, the Markdown must be what a fresh exporter gives - same document, same options
+	for _, decoy := range []string{"list", "table"} {
+		got, how := c20ReusedExport(doc, o, decoy)
+		res.Steps += 3
+		if how != "" {
+			add("unstable|exporter-reuse|"+how+"|after-"+decoy+"-decoy", "fixpoint", "an exporter that has exported another document before ("+decoy+" decoy) gives other Markdown for this document than a fresh exporter ("+how+")", md1, got)
+		}
 	}
 	toks := c20Tokens(els)
 	res.NonTriv = len(toks) > 0 && strings.TrimSpace(md1) != ""
